@@ -12,7 +12,11 @@ mod search;
 mod verif_hooks;
 
 /// `uci.rs` consists of private functions; including its text gives this crate access to
-/// `command_position` without any change to the repository.
+/// `command_position` without any change to the repository. The include names two private fields of
+/// `uci.rs` (`Data { current_game, cache }`): when a rewrite of that file renames them this crate is
+/// built WITHOUT the feature `uci` (see `core.cargo_harness`): every operation except `position`
+/// then works as before, so only the properties that need `position` in-process lose their tie.
+#[cfg(feature = "uci")]
 mod uci_inc {
     include!("../repo/src/uci.rs");
 
@@ -35,6 +39,80 @@ mod uci_inc {
         pub fn position(&mut self, rest: &str) -> Result<(), String> {
             let mut terms = rest.split_ascii_whitespace();
             command_position(&mut self.0, &mut terms).map_err(|e| format!("{}", e))
+        }
+    }
+}
+
+#[cfg(not(feature = "uci"))]
+mod uci_inc {
+    use crate::chess::Game;
+    pub struct Session(Option<Game>);
+    impl Session {
+        pub fn new() -> Self {
+            Session(None)
+        }
+        pub fn set_game(&mut self, g: Option<Game>) {
+            self.0 = g;
+        }
+        pub fn game(&self) -> Option<&Game> {
+            self.0.as_ref()
+        }
+        /// STAND-IN for `command_position` (the real one is out of reach in this build): the same steps written
+        /// against the public API, so that the operation scripts of the other properties keep working. The
+        /// properties that are ABOUT `position` (C12, C15) do not accept this stand-in (see `core.HARNESS_NO_UCI`).
+        pub fn position(&mut self, rest: &str) -> Result<(), String> {
+            use crate::chess::move_struct::Move;
+            let mut terms = rest.split_ascii_whitespace();
+            let mut add_moves = false;
+            match terms.next() {
+                Some("startpos") => {
+                    self.0 = Some(Game::default());
+                    if terms.next() == Some("moves") {
+                        add_moves = true;
+                    }
+                }
+                Some("fen") => {
+                    let mut fen = String::new();
+                    for t in terms.by_ref() {
+                        if t == "moves" {
+                            add_moves = true;
+                            break;
+                        }
+                        fen.push_str(t);
+                        fen.push(' ');
+                    }
+                    match Game::new(&fen) {
+                        Ok(g) => self.0 = Some(g),
+                        Err(_) => {
+                            self.0 = None;
+                            return Err("Invalid FEN string".to_string());
+                        }
+                    }
+                }
+                Some(_) => return Err("Invalid position command".to_string()),
+                None => return Err("Invalid position command".to_string()),
+            }
+            if add_moves {
+                for s in terms {
+                    let game = self.0.as_mut().unwrap();
+                    let Some(m) = Move::from_uci_notation(s, game) else {
+                        self.0 = None;
+                        return Err("Invalid move".to_string());
+                    };
+                    let mut moves = arrayvec::ArrayVec::new();
+                    game.get_moves(&mut moves, true);
+                    if moves.iter().any(|&a| a == m) {
+                        game.push_history(m);
+                        if game.len() >= 400 {
+                            self.0 = None;
+                            return Err("Game became too long".to_string());
+                        }
+                    } else {
+                        return Err("Invalid move".to_string());
+                    }
+                }
+            }
+            Ok(())
         }
     }
 }
